@@ -16,6 +16,9 @@ func (c *ShipConnection) handleShipMessage(timeout bool, message []byte) {
 		if err == nil && closeMsg.ConnectionClose.Phase != "" {
 			switch closeMsg.ConnectionClose.Phase {
 			case model.ConnectionClosePhaseTypeAnnounce:
+				// the connection ends here, a running handshake timer must not fire any more
+				c.stopHandshakeTimer()
+
 				// SHIP 13.4.7: Connection Termination Confirm
 				closeMessage := model.ConnectionClose{
 					ConnectionClose: model.ConnectionCloseType{
@@ -28,10 +31,16 @@ func (c *ShipConnection) handleShipMessage(timeout bool, message []byte) {
 				// wait a bit to let it send
 				<-time.After(500 * time.Millisecond)
 
+				// the handshake may have been continued locally in the meantime
+				c.stopHandshakeTimer()
+
 				//
 				c.dataWriter.CloseDataConnection(4001, "close")
 				c.infoProvider.HandleConnectionClosed(c, c.getState() == model.SmeStateComplete)
 			case model.ConnectionClosePhaseTypeConfirm:
+				// the connection ends here, a running handshake timer must not fire any more
+				c.stopHandshakeTimer()
+
 				// we got a confirmation so close this connection
 				c.dataWriter.CloseDataConnection(4001, "close")
 				c.infoProvider.HandleConnectionClosed(c, c.getState() == model.SmeStateComplete)
